@@ -412,7 +412,10 @@ class _SymExec:
                     try:
                         tr.env[tgt.id] = tr.tr(val)
                     except terms.Untranslatable:
-                        tr.env.pop(tgt.id, None)
+                        if _opaque_rhs(val):
+                            tr.env[tgt.id] = sp.Symbol(tgt.id, real=True)      # a value the evaluator does not look into (x.full().data)
+                        else:
+                            tr.env.pop(tgt.id, None)
                     continue
                 if isinstance(tgt, ast.Tuple):
                     for e in tgt.elts:
@@ -574,6 +577,8 @@ def _bind_unknown_locals(fi, tr) -> None:
 def _opaque_rhs(v: ast.expr) -> bool:
     if isinstance(v, ast.Attribute):
         return True
+    if isinstance(v, ast.Subscript):
+        return _opaque_rhs(v.value)
     if isinstance(v, ast.Call):
         nm = dotted(v.func) or ""
         if nm.split(".")[-1] in ("full", "estimate_helper", "normalize"):
